@@ -213,6 +213,18 @@ func c13WhoAuthenticates(c *Ctx) {
 					continue
 				}
 				why, ok := allowedAuth[sf]
+				if !ok {
+					// a helper whose every static caller is one of the verified login paths (and which is never called dynamically)
+					allowedSet := map[string]bool{}
+					for k := range allowedAuth {
+						if k != "cmd/rdpgw/web.TransposeSPNEGOContext$1" && k != "(*cmd/rdpgw/web.OIDC).HandleCallback" {
+							allowedSet[k] = true
+						}
+					}
+					if c.onlyCalledFromAnyClosure(fn, allowedSet) {
+						ok, why = true, "helper called only from the Basic/NTLM middleware after backend confirmation (C05 checks the guard at the call sites)"
+					}
+				}
 				if ok && sf == "cmd/rdpgw/web.TransposeSPNEGOContext$1" {
 					// must be the library identity's own Authenticated()
 					src, isCall := strip(call.Call.Args[0]).(*ssa.Call)
